@@ -80,7 +80,8 @@ PROMOTABLE = ['str', 'hexstr', 'bytes', 'bytearray', 'memoryview', 'list', 'tupl
 BYTE_KINDS = ('bytes', 'bytearray', 'memoryview', 'bytes-sub', 'bytearray-sub', 'memoryview-ro')
 REFLECTABLE = {'str', 'hexstr', 'bytes', 'bytearray', 'memoryview', 'list', 'tuple', 'gen', 'truthy', 'truthy-iter'} | (set(util.SUBCLASS_KINDS) - {'frozenbitarray'}) | {'failing-iter'}
 ROUTES = ['bin', 'bin', 'slice', 'bytes', 'auto', 'file', 'file-limited', 'frozenbitarray', 'frozenbitarray-kw', 'bitarray-kw',
-          'memoryview-ro']
+          'memoryview-ro'] + ['made:' + r for r in ('from-BitArray', 'from-BitStream', 'copy', 'pack', 'bin-assigned', 'uintN-assigned', 'appended-to-empty',
+                                                      'cleared-then-iadd', 'shifted-out-then-or', 'add-halves')]
 UINT_LIMIT = 257
 
 
@@ -163,6 +164,8 @@ def _build_receiver(c, bits=None):
         s = cls(bytes=int(padded, 2).to_bytes(len(padded) // 8, 'big'), offset=off, length=len(a))
     elif route == 'auto' and len(a) <= 200:
         s = cls('0b' + a)
+    elif route.startswith('made:') and c['cls'] in util.MUTABLE:
+        s = util.mk_via(cls, a, route[5:])          # a mutable object that came to hold its bits in another way than through its constructor
     elif route in ('frozenbitarray', 'frozenbitarray-kw', 'bitarray-kw'):
         # built from somebody else's (possibly immutable, possibly little-endian) bitarray
         import bitarray
